@@ -2,7 +2,7 @@
    backup hands every document to the backups exactly once, in order.
    Statements only; every proof is in Proofs/Normalizer.v. *)
 From Coq Require Import String List ZArith Bool.
-From BV Require Import Base.Prelude Pure.Normalizer Pure.NormalizerSpec Proofs.Normalizer Proofs.NormalizerB.
+From BV Require Import Base.Prelude Pure.Normalizer Pure.NormalizerSpec Proofs.Normalizer Proofs.NormalizerB Proofs.NormalizerRun.
 From BVgen Require TiledTables.
 Import ListNotations.
 Open Scope string_scope.
@@ -156,15 +156,38 @@ Theorem C35_b_stop_handler : forall doc x x',
 Proof. exact h_stop_spec. Qed.
 Print Assumptions C35_b_stop_handler.
 
-(* The statement over a whole run, in boolean form ([b_holds_b], Pure/NormalizerSpec.v: one Event out
-   per Event in; the StreamDatums made from Datums are exactly the referenced datum ids, each once,
-   seq_nums = indices + 1, indices from the Event's seq_num when there is no frame, and the same
-   ranges whichever of Datum/Event arrived first).  NOT proved as one theorem: the step theorems
-   above hold at every step of every run (C35_b_reachable_states) but their summation over the
-   run is not carried out in Coq; [b_holds_b] is evaluated on every correspondence case instead. *)
-Definition C35_b_full : Prop :=
-  forall docs, Forall (fun d => noref (snd d) = true) docs ->
-    r_errs (run Deep [] docs) = [] -> finding_C35_b docs = false -> b_holds_b docs = true.
+(* The statement over a whole run, as ONE theorem.  [b_holds_b docs] (Pure/NormalizerSpec.v) says of the run
+   of RunNormalizer over the stream [docs]:
+     1. one Event out per Event in, in order (same uids) - together with
+        C35_b_event_internal_values_kept: every internal (key, value) is in exactly one emitted Event;
+     2. the StreamDatums made from Datums are, as a multiset of uids, exactly the datum ids referred to
+        by (Event, unfilled external key) pairs: each exactly once;
+     3. each has exactly the ranges [spec_ranges docs]: seq_nums = indices + 1, indices = [seq_num-1, seq_num)
+        without a frame, the frame counters advanced in Event order otherwise - a function of the Events
+        and of the Datum contents only, not of whether the Datum or the Event arrived first
+        (C35_b_ranges_ignore_arrival_order below).
+   It holds for EVERY stream of documents given as trees, of any length, in which no handler raised and which
+   is outside finding class C35-b, provided the stream is well formed ([wf_b], decidable, evaluated on the
+   generated cases):  single documents (no event_page / datum_page: the page handlers are by definition
+   the single-document handlers iterated over the unpacked rows), the stop document last, descriptor uids
+   distinct and received before their Events, Event data keys declared by their descriptor, no key both
+   internal and external, data keys not named time / seq_num / _time / _seq_num (the renaming of those is
+   covered by the step theorem C35_b_event_internal_values_kept), datum ids distinct, referenced ids distinct
+   and different from the uids of StreamDatum documents passing through, uids hashable.
+   Proof: induction over the stream with an invariant on cached Datums, cached references, frame
+   counters, key sets and emitted documents (Proofs/NormalizerRun.v). *)
+Theorem C35_b_full : forall docs,
+  wf_b docs = true -> Forall (fun d => noref (snd d) = true) docs ->
+  r_errs (run Deep [] docs) = [] -> finding_C35_b docs = false -> b_holds_b docs = true.
+Proof. exact b_full. Qed.
+Print Assumptions C35_b_full.
+
+(* "whichever of Datum / Event arrives first": the required ranges (and references) of the stream in which
+   every Datum arrives before the first Event are the required ranges of the stream itself *)
+Theorem C35_b_ranges_ignore_arrival_order : forall docs,
+  spec_ranges (datums_first docs) = spec_ranges docs /\ expected_refs (datums_first docs) = expected_refs docs.
+Proof. intros docs. split; [apply spec_ranges_datums_first | apply expected_refs_datums_first]. Qed.
+Print Assumptions C35_b_ranges_ignore_arrival_order.
 
 (* Finding C35-b: a frame-carrying Datum that arrives after the Event referring to it, while the
    Datum of a later Event was converted in time, gets index/seq_num ranges that depend on the
@@ -202,8 +225,19 @@ Qed.
 
 (* outside the class the full statement is not vacuous: the C35-a witness run satisfies it *)
 Example C35_b_nonvacuous :
-  finding_C35_b witness_docs = false /\ r_errs (run Deep [] witness_docs) = [] /\ b_holds_b witness_docs = true
+  wf_b witness_docs = true /\ finding_C35_b witness_docs = false /\ r_errs (run Deep [] witness_docs) = [] /\
+  b_holds_b witness_docs = true /\ spec_ranges witness_docs = [(VStr "res1/0", (0, 1))]%Z
   /\ inv (ns (fst (run_from Deep 0 [] (init_mst [] []) []))).
+Proof. vm_compute. repeat split. Qed.
+
+(* an Event waiting for its (frame-less) Datum is inside the theorem: the witness of C35-b without the frames *)
+Example C35_b_late_datum_nonvacuous :
+  let docs := map (fun nd => (fst nd, match snd nd with
+                                      | VDict [("datum_id", i); ("resource", r); ("datum_kwargs", _)] =>
+                                          VDict [("datum_id", i); ("resource", r); ("datum_kwargs", VDict [])]
+                                      | v => v end)) witness_b in
+  wf_b docs = true /\ finding_C35_b docs = false /\ r_errs (run Deep [] docs) = [] /\ b_holds_b docs = true /\
+  spec_ranges docs = [(VStr "dat0", (0, 1)); (VStr "dat1", (1, 2))]%Z.
 Proof. vm_compute. repeat split. Qed.
 
 (* ---------------------------------------------------------------- (c) conditional backup *)
